@@ -655,6 +655,10 @@ func runStress(c strCase, dir string) (any, error) {
 	events := tr.events
 	tr.mu.Unlock()
 	out := map[string]any{"id": c.ID, "requests": nreq, "stuck": stuck, "trace": events}
+	if c.Serial {
+		// a serial history is judged by its final state only: tens of thousands of recorded traces are not carried along
+		delete(out, "trace")
+	}
 	if stuck != "" {
 		return out, nil
 	}
